@@ -28,6 +28,8 @@ var LibModels = []string{
 	"strings.ToUpper/ToLower: length-preserving for ASCII input; ASCII letters mapped exactly, other ASCII bytes unchanged (non-ASCII: uninterpreted)",
 	"sort.Ints: same length, ascending, same set of values, distinctness preserved (consequences of 'sorted permutation'); sort.Strings/Float64s/Slice/SliceStable: same length, a permutation (every sum-shaped fold over the whole slice is preserved), otherwise unconstrained",
 	"strings/bytes Index, IndexByte, LastIndex(Byte): result is -1 or a position where the separator fits; for a one-byte separator the byte at the result is that byte and no earlier (later, for Last*) position holds it, and -1 means no position holds it; Contains/HasPrefix/HasSuffix: length consequences, exact for literal prefixes/suffixes of up to 8 bytes",
+	"bufio.Scanner.Scan: every successful Scan decreases a non-negative ghost count (a scanner delivers finitely many tokens); token contents are uninterpreted",
+	"bufio.Reader: ideal byte stream (ghost content, position, peeked-byte count, sticky failure flag); ReadByte/Peek/UnreadByte/io.ReadFull move the position as documented; reads fail at the end of the data or, stickily, on an I/O error",
 	"io.ReadFull/ReadAtLeast: 0 <= n <= len(buf), err == nil exactly when the window was filled (ReadFull); the window's bytes become unknown",
 	"other strings/strconv/unicode/utf8/math/path functions: uninterpreted deterministic functions of their arguments",
 }
@@ -213,6 +215,19 @@ func (x *Exec) libCall(key string, fn *types.Func, call *ast.CallExpr, recvExpr 
 			Eq(x.rdBad(nv), x.rdBad(cur))))
 		x.assign(recvExpr, nv, env)
 		return []Term{errT}, true
+	case "bufio.(*Scanner).Scan":
+		// a Scanner delivers finitely many tokens: every successful Scan decreases the ghost count scRem
+		if x.termMode {
+			unsupported("bufio.Scanner in term mode")
+		}
+		cur := x.eval(recvExpr, env)
+		x.W.DeclareFun("scRem", []Sort{cur.Sort}, SInt)
+		nv := x.fresh("scn", info.TypeOf(recvExpr))
+		ok := x.W.Fresh("scanok", SBool)
+		rem := func(t Term) Term { return T("(scRem "+t.S+")", SInt) }
+		x.W.AddFact(env.pc, And(Cmp(">=", rem(cur), IntLit(0)), Cmp(">=", rem(nv), IntLit(0)), Implies(ok, Cmp("<", rem(nv), rem(cur))), Implies(Not(ok), Eq(rem(nv), rem(cur))), Not(x.isNilPtr(nv))))
+		x.assign(recvExpr, nv, env)
+		return []Term{ok}, true
 	case "bytes.NewReader":
 		// a bytes.Reader is modelled as the sequence of bytes not yet read
 		v := arg(0)
